@@ -451,7 +451,7 @@ def _snap(obj):
     return snapshot.snap_project(obj) if isinstance(obj, Project) else snapshot.snap_synth(obj)
 
 
-def mutate_live(root, rng, n, prefer=()):
+def mutate_live(root, rng, n, prefer=(), exclude=None):
     """Apply up to n catalogue edits in place to a live Project/Synth (used by C02/C16 for 'save, edit, save again')."""
     S = _snap(root)
     edits = catalogue(S, gen.Gen(rng))
@@ -461,7 +461,7 @@ def mutate_live(root, rng, n, prefer=()):
     for e in edits:
         if len(applied) >= n:
             break
-        if e.coupled:
+        if e.coupled or (exclude is not None and exclude(e.path)):
             continue
         try:
             e.apply(root)
